@@ -38,7 +38,26 @@ TECHNIQUE = {
 }
 
 LEVEL_TEXT = {
+    "C01": "Every generated well-formed expression (token level, all spellings, whitespace, redundant brackets, all 4! level orderings, long chains, deep nesting) is parsed by the real parser and its tree must be a binarisation of the n-ary grouping computed by an independent precedence parser. Held on the strings observed; Earley ambiguity resolution on patterns never generated stays unexplored.",
+    "C02": "Hostile strings (well-formed, 1-3 character edits, garbage incl. non-ASCII look-alikes, structural edge cases, failure sequences through malformed packages) go to all three parsing entry points and the validity check; a three-valued hand-written recogniser decides accept/reject where the documentation is clear and only 'tree or SyntaxError' where it is not. Held on the strings observed.",
     "C03": "The operand space is finite (4^2 pairs, 4^3 triples per operator) and is enumerated completely against every law the property names, so on this property the run is exhaustive; the in-situ contract additionally shows the same table holding for operator calls made inside real evaluations.",
+    "C04": "For every generated valid expression ALL 3^k assignments (k <= 6) are evaluated by the real tree evaluator and compared with a recursive reference evaluator on the generator's AST; the async API runs with harness evaluators (partly under random completion orders), with the library's own dictionary / ContentEvaluationResult based evaluators (fresh and long-lived data) and with per-message evaluator instances. Held on the executions observed.",
+    "C05": "Six metamorphic relations between two executions of the real evaluator (hint and-ed on, format constraint attached, redundant brackets, operands swapped, refinement of UNKNOWN) at all positions of small expressions under all assignments. No reference model is needed for the verdict; held on the related pairs observed.",
+    "C06": "The structural validity predicate of the statement is compared with what the real evaluator does under EVERY assignment (direct evaluator, evaluate_ahb_expression_tree, is_valid_expression), incl. neutral-only expressions and failed evaluations in between. Held on the expressions observed.",
+    "C07": "The collected expression is parsed by the real parser, its shape and keys are checked and it is evaluated by the real format-constraint evaluator under ALL 2^n truth assignments against a reference collection; both readings of the one corner the statement leaves open are accepted. Held on the expressions observed.",
+    "C08": "All 2^n truth assignments of generated format-constraint expressions through the real evaluator (with messages, without messages, async through yielding / shipped evaluators, concurrent evaluations with different texts) against the Boolean value of the AST; message present iff unfulfilled. Held on the evaluations observed.",
+    "C09": "Every spelling of every indicator in every letter case is enumerated; random multi-part expressions are split by both parsers and evaluated; the selected part and its outcome are compared with the reference selection and with evaluating that part's condition expression alone (harness and shipped evaluators). Held on the expressions observed.",
+    "C10": "The statement itself is the oracle: the resolved tree (canonical form with token types) must equal the tree of the textually substituted expression, for random package tables, under every completion order of the resolver's answers for <= 4 occurrences, through harness and shipped resolvers. Held on the cases observed.",
+    "C11": "Random histories of parse / in-place edit of returned trees / cross-parser calls / eviction floods; every returned tree is compared with the first parse of that string and evaluations before/after the history are compared. Histories are independent (private strings) and replayable from their seed. Held on the histories observed.",
+    "C12": "A completion-order explorer parks every user-side awaitable and releases them one at a time: all orders for small runs (DFS), FIFO/LIFO/random above; per-key pairing contracts on the gather+zip sites decide each gather, results are compared with the run where nothing yields and with the written-out expression; context isolation is checked on concurrent evaluations. Held on the schedules observed; only completion orders of user awaitables are explored (that is the property's quantifier).",
+    "C13": "A reference validator (documented mapping + parent table + pruning) decides status, order and exactly-once for every node of random AHB trees under random completion orders, single runs and batches in one context, harness and shipped evaluators, with and without maus line indexes. Held on the trees observed.",
+    "C14": "Metamorphic: the real validation with the flag is compared node by node with the real validation of the tree in which SOLL is rewritten, incl. UNKNOWN outcomes reaching only SOLL nodes and the default flag after a refused run. Held on the trees observed.",
+    "C15": "Every format-constraint evaluation logs the text it was given and the text in the context variable after yielding; both must be the owning element's input (unique inputs, owned keys; shared keys; same instant in different notations; stale text in the caller's context); each element's result must equal its stand-alone validation. Held on the events observed.",
+    "C16": "Fault enumeration: a structurally invalid expression is planted at every single site and every pair of sites of small trees (sampled subsets for larger ones) and the run is compared with the 'Kann' variant node by node, also with look-ups shared between nodes and hint texts full of format characters. Held on the injections observed.",
+    "C17": "A reference model of the offered set (pool order) and of accept / flag-and-empty / forbidden decides every generated pool x assignment x input x parent status, through the direct entry point and through validate_segment. Held on the cases observed.",
+    "C18": "Classification is exhaustive over 0..3000 (every boundary); extraction is compared with a regex-based reference partition for generated expressions with all flag combinations; the union law incl. reused summands; the product for every (m, n) up to the tier's bound incl. regeneration after the key lists changed. Held on the cases observed; the classification part is exhaustive for 0..3000.",
+    "C19": "Every object the workloads produce (trees from all parsers incl. staged resolution, results of real evaluations with null outcomes, extracts as extracted, content evaluation results) is dumped to JSON and loaded back and compared; round-tripped trees are evaluated against the originals; other schemas and rejected documents are interleaved. Held on the objects observed.",
+    "C20": "An independent integer EU-DST calendar decides all five constraints for the COMPLETE positive set 1996-2037 (30 682 instants), their neighbours, both switch days of every year per quarter hour, random instants, each in several notations; hostile strings must never raise. The positive set and the switch-day grid are complete; offsets and other instants are sampled.",
 }
 DEFAULT_LEVEL_TEXT = (
     "Held on the executions the monitors observed (numbers in the evidence file): a deterministic oracle decides every generated case; "
